@@ -40,7 +40,21 @@ def Md : ModSrc := { src "mdd" "" with imports := [(bs "maa", []), (bs "mcc", []
 /-- a module that does not compile (unknown typedef) -/
 def Mz : ModSrc := { src "mzz" "" with imports := [(bs "maa", [])], faults := [(.compile, 7)] }
 
-def ctx0 (repo : List ModSrc) (explicit : Bool := false) : Ctx := { repo := repo, explicit := explicit }
+def ctx0 (repo : List ModSrc) (explicit : Bool := false) (cfg : Cfg := {}) : Ctx := { cfg := cfg, repo := repo, explicit := explicit }
+
+/-- every value of `Cfg` -/
+def allCfgs : List Cfg :=
+  [false, true].flatMap fun a => [false, true].flatMap fun b => [false, true].flatMap fun c => [false, true].flatMap fun d =>
+    [false, true].map fun e => ⟨a, b, c, d, e⟩
+
+/-- a decidable statement about all parameter values is checked by evaluating it on each of them -/
+theorem forall_cfg {P : Cfg → Prop} [DecidablePred P] (h : (allCfgs.all fun c => decide (P c)) = true) : ∀ c, P c := by
+  intro c
+  have hm : c ∈ allCfgs := by
+    rcases c with ⟨c1, c2, c3, c4, c5⟩
+    cases c1 <;> cases c2 <;> cases c3 <;> cases c4 <;> cases c5 <;> decide
+  rw [List.all_eq_true] at h
+  exact of_decide_eq_true (h c hm)
 
 def runs (s : Ctx) : List Op → Ctx
   | [] => s
